@@ -60,6 +60,25 @@ CLAIMED = {
              "http reason table is read from the compiled crate on every run.",
         design="6/C20", technique="Coq proof (induction over the header list / write sequence) + differential execution over all codes and capacities",
         note="std Write for &mut [u8]/Vec and http::StatusCode::{as_str,canonical_reason} modelled; header name 'status' excluded (documented precondition, debug_assert)."),
+    "C06": dict(
+        text="Proof (partial so far): Config::aligned_bufsize is modelled (64-bit usize, overflow arm included) and proved, for every configurable "
+             "size, to be >= the configured size, >= 24, a multiple of 8 and the least such value; the overflow arm is stated separately; a fresh "
+             "parser offers the whole effective buffer. The sufficiency clause (no StuckOnInput for pairs <= B-13 under every segmentation and "
+             "chunking) and the 'reported, never waited on' clause are stated in coq/Parser/ReqTargets.v (preamble_exact_stmt, parse_reported_stmt, "
+             "parse_stuck_stmt); their proofs are in progress and are added to Props/C06.v when complete - until then these two clauses are "
+             "decided by the correspondence check + oracle only (pairs of size B-13-d..B-4 at start/middle/end/across records, reads that exactly "
+             "fill the buffer, all b in 0..4096 / 0..2^20 for the alignment clause).",
+        design="6/C06", technique="Coq proof (arithmetic) for the effective-buffer clause; model-vs-crate differential execution + oracle for the stuck clauses (proofs pending)",
+        note="usize assumed 64-bit."),
+    "C18": dict(
+        text="Proof (partial so far): cmp_input_streams and set_stream of src/parser/stream.rs are modelled at index level. Proved: the full comparison "
+             "table and the full acceptance table over their finite domains (decided by vm_compute inside Coq and lifted, domain stated in the "
+             "theorem), and for EVERY parser state: rejected selections change nothing, re-selecting keeps all buffered data, an accepted change "
+             "sets the stream, empties the stream buffer and leaves request/record position/pending output untouched; the initial stream is the "
+             "first of the role. The unbounded clause 'only bytes of the active stream are ever delivered, for any record order' is decided by the "
+             "correspondence check + oracle on scrambled stream orders with matching/foreign ids (proof pending: stream-parser invariant).",
+        design="6/C18", technique="Coq proof (finite tables by vm_compute lifted with In-lemmas; set_stream by case analysis) + differential execution on scrambled stream orders",
+        note="requested selections restricted to None/Stdin/Data: other record types hit a private debug_assert in debug builds (release rejects); recorded, not claimed."),
 }
 
 PENDING = {}
